@@ -82,7 +82,15 @@ class DatagramListenerSocketAdapter(transports.AsyncDatagramListener[tuple[Any, 
         self.__closing = True
         if not self.__transport.is_closing():
             self.__transport.close()
-        await asyncio.shield(self.__protocol._get_close_waiter())
+        close_waiter = asyncio.ensure_future(self.__protocol._get_close_waiter())
+        try:
+            await asyncio.shield(close_waiter)
+        except asyncio.CancelledError:
+            # transport.close() waits for the queued datagrams to be sent, which never happens if the socket stays full.
+            # aclose() has been cancelled (e.g. aclose_forcefully()): close abruptly, as documented.
+            if not close_waiter.done():
+                self.__transport.abort()
+            raise
 
     async def serve(
         self,
